@@ -4,7 +4,8 @@
    adapted_sql_cache (Model/C30Scan.v, Model/C30Adapt.v), tied to /repo by correspondence on every run.  The character
    classes \w and \s are parameters (is_w, is_sp): every theorem holds for all classifications. *)
 Require Import PonyV.Base.PyBase PonyV.Model.C06Str PonyV.Model.C06Lex PonyV.Model.C06Params PonyV.Model.C30Scan PonyV.Model.C30Adapt
-               PonyV.Proofs.C06StrLemmas PonyV.Proofs.C30Proofs.
+               PonyV.Proofs.C06StrLemmas PonyV.Proofs.C30Proofs
+               PonyV.Model.C30RawType PonyV.Gen.C30RawType PonyV.Proofs.C30RawTypeProofs.
 
 (* A statement is a list of segments: text without $, $$, $expression (optionally closed by white space and a semicolon).
    wf_segs: text segments contain no $, and for every expression segment the scanner's cut is where the author's expression
@@ -79,6 +80,26 @@ Theorem C30_cache : forall is_w is_sp h,
   run_history is_w is_sp [] h = map (fun rq => adapt is_w is_sp (snd rq) (fst rq)) h.
 Proof. exact cache_transparent. Qed.
 Print Assumptions C30_cache.
+
+(* raw_sql() fragments inside queries: the fragment's RawSQLType is part of the translator-cache and SQL-cache keys, and the
+   cached translator carries the converter of each $parameter's type.  Key soundness (rawtype_eq_fields / rawtype_hash_fields are
+   scanned from RawSQLType.__eq__ / __hash__ on every run): fragments that compare equal have the same text and the same
+   parameter types; __hash__ only looks at compared fields; the parsed items are determined by the text. *)
+Theorem C30_rawtype_key_sound : forall a b, rawtype_eqb a b = true -> rt_sql a = rt_sql b /\ rt_types a = rt_types b.
+Proof. exact rawtype_key_sound. Qed.
+Print Assumptions C30_rawtype_key_sound.
+
+Theorem C30_rawtype_hash_consistent : forall a b, rawtype_eqb a b = true ->
+  forall f, In f rawtype_hash_fields -> field_eqb f a b = true.
+Proof. exact rawtype_hash_consistent. Qed.
+Print Assumptions C30_rawtype_hash_consistent.
+
+Theorem C30_rawtype_items_determined : forall is_w is_sp a b,
+  rt_items a = match parse_raw is_w is_sp (rt_sql a) with Ok l => l | Err _ => [] end ->
+  rt_items b = match parse_raw is_w is_sp (rt_sql b) with Ok l => l | Err _ => [] end ->
+  rawtype_eqb a b = true -> rt_items a = rt_items b.
+Proof. exact rawtype_items_determined. Qed.
+Print Assumptions C30_rawtype_items_determined.
 
 (* non-vacuity:  select $x, $(y[1]) ;  where a=$$  under numeric and pyformat *)
 Example C30_nonvacuous :
